@@ -624,9 +624,10 @@ impl Engine for C10 {
         }
     }
 
-    fn generate(&self, rng: &mut Rng, _tier: Tier) -> Case {
+    fn generate(&self, rng: &mut Rng, tier: Tier) -> Case {
+        let deep = tier == Tier::Thorough && rng.chance(1, 5);
         let interned = rng.chance(1, 2);
-        let max_cost = *rng.pick(&[6_500_000u64, 8_000_000, 12_000_000, 20_000_000, 40_000_000]);
+        let max_cost = if deep { *rng.pick(&[40_000_000u64, 100_000_000, 250_000_000]) } else { *rng.pick(&[6_500_000u64, 8_000_000, 12_000_000, 20_000_000, 40_000_000]) };
         let cost_per_byte = *rng.pick(&[1u64, 7, 500, 12_000]);
         let cost_conditions = rng.chance(1, 2);
         let nops = match rng.below(6) {
@@ -634,6 +635,7 @@ impl Engine for C10 {
             1..=3 => rng.range(2, 7),
             _ => rng.range(5, 14),
         } as usize;
+        let nops = if deep { rng.range(14, 40) as usize } else { nops };
         let fault_pct = *rng.pick(&[0u64, 10, 25, 50]);
         let mut parent_counter = rng.below(1 << 40);
         let mut ops = vec![];
